@@ -478,6 +478,20 @@ class Check:
             t.start()
         for t in ts:
             t.join()
+        # The time limit is per batch: the case that was executing when a batch ran out of time is
+        # only blamed after it has also used up the whole limit alone in a worker of its own.
+        blamed = [i for i, r in enumerate(results) if r and isinstance(r[0], dict) and "hang" in r[0]]
+        if blamed and not getattr(self, "_confirming_hang", False):
+            self._confirming_hang = True
+            try:
+                again = self.eval_cases([cases[i] for i in blamed], prelude=prelude, batch=1,
+                                        timeout_per_batch=timeout_per_batch, env=env, fresh=fresh,
+                                        binary=binary, extra_args=extra_args)
+            finally:
+                self._confirming_hang = False
+            for i, r in zip(blamed, again):
+                results[i] = r
+            self.cov["batch_timeouts_rechecked"] = self.cov.get("batch_timeouts_rechecked", 0) + len(blamed)
         return results
 
     # ------------------------------------------------------------------ evidence
